@@ -67,7 +67,7 @@ pub(crate) fn gen_doc(rng: &mut Rng, creation: bool) -> Doc {
         user_id: rng.bytes(*rng.clone().pick(&[0usize, 1, 2, 16, 31, 64])),
         challenge: rng.bytes(*rng.clone().pick(&[0usize, 1, 2, 3, 16, 32, 100])),
         algs: (0..rng.range(0, 4)).map(|_| *rng.pick(&[-7i64, -257, -8, -35, -36, -37])).collect(),
-        timeout: if rng.bool() { Some(*rng.pick(&[0u32, 1, 1800, 60_000, 300_000, 4_000_000_000])) } else { None },
+        timeout: if rng.bool() { Some(*rng.pick(&[0u32, 1, 1800, 60_000, 300_000, 4_000_000_000, 16_777_217, 18_000_001, 604_800_123, u32::MAX, u32::MAX - 1])) } else { None },
         creds: if rng.bool() { Some(gen_descs(rng)) } else { None },
         selection: if creation && rng.bool() {
             Some((
@@ -510,6 +510,32 @@ fn client_data_case(rep: &mut Report, seed: u64, idx: u64) {
         Ok(k) => rep.violate("client data members are not serialised as type, challenge, origin, crossOrigin, extras in original order, unknown members in original order", format!("got {k:?}, expected {want:?}"), case.clone()),
         Err(e) => rep.violate("client data JSON does not parse", e, case.clone()),
     }
+    // a hand-built value whose unknown members repeat one of the four leading names: whatever the
+    // library does with the repeated name, the other unknown members keep their original order
+    if unk_keys.len() >= 2 {
+        let lead = *rng.pick(&["origin", "type", "challenge", "crossOrigin"]);
+        let mut with_lead: Vec<String> = unk_keys.clone();
+        with_lead.insert(rng.below(unk_keys.len()), lead.to_string());
+        with_lead.push("omega".into());
+        let cd1 = CollectedClientData::<IndexMap<String, Value>> {
+            ty: ClientDataType::Get,
+            challenge: "abc".into(),
+            origin: "https://example.com".into(),
+            cross_origin: cross,
+            extra_data: IndexMap::new(),
+            unknown_keys: with_lead.iter().map(|k| (k.clone(), json!(1))).collect(),
+        };
+        if let Ok(Ok(t)) = catch(|| serde_json::to_string(&cd1)) {
+            let leading = ["type", "challenge", "origin", "crossOrigin"];
+            // serde_json keeps the last of repeated keys when parsing into a map; read the raw key sequence
+            let got: Vec<String> = raw_top_level_keys(&t).into_iter().filter(|k| !leading.contains(&k.as_str())).collect();
+            let want1: Vec<String> = with_lead.iter().filter(|k| !leading.contains(&k.as_str())).cloned().collect();
+            rep.count("client_data_with_repeated_leading_name");
+            if got != want1 {
+                rep.violate("client data: unknown members are not serialised in their original order (a leading member name is repeated among them)", format!("got {got:?}, expected {want1:?}"), case.clone());
+            }
+        }
+    }
     // a struct as extra data
     let cd2 = CollectedClientData::<Extra> {
         ty: ClientDataType::Get,
@@ -555,6 +581,40 @@ fn client_data_case(rep: &mut Report, seed: u64, idx: u64) {
 // ---------------------------------------------------------------------------------------------
 // emitted credentials re-parse
 // ---------------------------------------------------------------------------------------------
+
+/// The member names of the top-level object of a JSON text, in document order, repeats included.
+fn raw_top_level_keys(text: &str) -> Vec<String> {
+    let b = text.as_bytes();
+    let mut keys = Vec::new();
+    let (mut depth, mut i, mut expect_key) = (0i32, 0usize, false);
+    while i < b.len() {
+        match b[i] {
+            b'{' | b'[' => {
+                depth += 1;
+                expect_key = b[i] == b'{' && depth == 1;
+            }
+            b'}' | b']' => depth -= 1,
+            b',' if depth == 1 => expect_key = true,
+            b'"' => {
+                let start = i + 1;
+                i += 1;
+                while i < b.len() && b[i] != b'"' {
+                    if b[i] == b'\\' {
+                        i += 1;
+                    }
+                    i += 1;
+                }
+                if depth == 1 && expect_key {
+                    keys.push(String::from_utf8_lossy(&b[start..i.min(b.len())]).to_string());
+                    expect_key = false;
+                }
+            }
+            _ => {}
+        }
+        i += 1;
+    }
+    keys
+}
 
 fn first_debug_difference(a: &str, b: &str) -> String {
     let i = a.bytes().zip(b.bytes()).position(|(x, y)| x != y).unwrap_or(a.len().min(b.len()));
